@@ -607,6 +607,10 @@ func (x *g) genHTTP(sv *spec.Service, m *spec.Method, idx int) {
 						}
 					default:
 						c := x.r.Intn(4)
+						if x.o.Profile == "security" && len(m.Security) == 0 && !m.NoSec && x.chance(2, 3) {
+							// methods that INHERIT their requirements carry the credential in different places
+							c = []int{0, 3, 1, 3}[idx%4]
+						}
 						if (hasBasic || authHeaderUsed) && c < 2 {
 							c = 2
 						}
